@@ -53,6 +53,15 @@ AcceptFrom(e) ==         \* From / LossyFrom impls that exist
      /\ (e.tr = "From" => Lossless(a, LF(e.A), LF(e.B)))
      /\ ValIs(e.o[1], R) /\ ValIs(e.o[2], R)
 
+\* impl existence (compile-time probe): an impl of From / LossyFrom between fixed types may exist only where no source
+\* value can overflow the destination (checked at the two extremes: the conversion is monotone), and From only where
+\* no fractional bit can be lost.  A missing impl is never a violation.
+AcceptImpl(e) ==
+  e.exists = 1 =>
+    /\ Fits(ConvR(MaxV(e.A), LF(e.A), LF(e.B)), e.B)
+    /\ Fits(ConvR(MinV(e.A), LF(e.A), LF(e.B)), e.B)
+    /\ (e.tr = "From" => LF(e.B) >= LF(e.A))
+
 (* ------------------------------ C05 ------------------------------------ *)
 AcceptF2X(e) ==
   LET fl == FDec(ZJ(e.fb), e.ft)  L == e.B
@@ -138,7 +147,7 @@ AcceptPair(e) ==
                  ok(i) == i = 1 /\ fl.cls = "fin" /\ ~Fits(FloatToFixR(fl, LF(u.B)), u.B) IN
              /\ SameCall(u, c)
              /\ PairSlots(u.o, c.o, ok) /\ PairSlots(u.o2, c.o2, ok)
-       [] u.k \in {"cmp", "cmpf", "ord", "from", "x2f", "codec"} -> [x \in (DOMAIN u) \ {"pr"} |-> u[x]] = [x \in (DOMAIN c) \ {"pr"} |-> c[x]]
+       [] u.k \in {"cmp", "cmpf", "ord", "from", "x2f", "codec", "impl"} -> [x \in (DOMAIN u) \ {"pr"} |-> u[x]] = [x \in (DOMAIN c) \ {"pr"} |-> c[x]]
        [] u.k \in {"wreset", "wload", "w"} -> [x \in (DOMAIN u) \ {"pr"} |-> u[x]] = [x \in (DOMAIN c) \ {"pr"} |-> c[x]]
        \* parsing and formatting never depend on the profile and never panic
        [] u.k \in {"parse", "fmt"} -> [x \in (DOMAIN u) \ {"pr"} |-> u[x]] = [x \in (DOMAIN c) \ {"pr"} |-> c[x]]
@@ -163,6 +172,7 @@ Accept(e, P) ==
     [] e.k = "ord"   -> AcceptOrd(e)
     [] e.k = "conv"  -> AcceptConv(e)
     [] e.k = "from"  -> AcceptFrom(e)
+    [] e.k = "impl"  -> AcceptImpl(e)
     [] e.k = "f2x"   -> AcceptF2X(e)
     [] e.k = "x2f"   -> AcceptX2F(e)
     [] e.k = "codec" -> AcceptCodec(e)
